@@ -1,5 +1,6 @@
 import Gaftools.Props.C01b
 import Gaftools.Model.ConvText
+import Gaftools.Proofs.RoundtripLemmas
 /-!
 # C02 — conversion is lossless: round trips and untouched columns
 -/
@@ -18,13 +19,95 @@ def itemsOf : SPath → List SItem
   | .bare c => [.bare c]
   | .ivs l => l.map toItem
 
+/-- a list of (interval, run) pairs whose intervals are a singleton is a singleton -/
+theorem single_group {α β : Type} (xgs : List (α × β)) (a : α) (h : xgs.map (·.1) = [a]) : ∃ g, xgs = [(a, g)] := by
+  cases xgs with
+  | nil => simp at h
+  | cons xg rest =>
+    cases rest with
+    | cons _ _ => simp at h
+    | nil =>
+      obtain ⟨x1, g⟩ := xg
+      simp only [List.map_cons, List.map_nil, List.cons.injEq, and_true] at h
+      subst h
+      exact ⟨g, rfl⟩
+
 /-- MAIN: unstable → stable → unstable reproduces a canonical record exactly (path, path length, offsets; the CIGAR is
     reversed twice or not at all) -/
 theorem roundtrip_USU (segs : List RSeg) (hv : ValidRGFA segs) (steps : List (Bool × String)) (plen ps pe : Int)
     (hc : CanonUnstable segs steps plen ps pe) (p : SPath) (o : ConvOut)
     (h : toStable (nodeTbl segs) (refNames segs) (ctgLen segs) true steps plen ps pe = some (p, o)) :
     toUnstable (refOf segs) o.strandPlus (itemsOf p) o.plen o.ps o.pe = some (steps, ⟨true, plen, ps, pe, o.flipCigar⟩) := by
-  sorry
+  obtain ⟨l, hl1, hl2⟩ := Proofs.Roundtrip.steps_nodes segs steps hc.walk.known
+  subst hl2
+  have hmapM := Proofs.Roundtrip.mapM_nodeTbl segs hv l hl1
+  obtain ⟨x, xs, hmap, hcases⟩ := toStable_cases _ _ _ true _ plen ps pe p o h
+  rw [hmapM] at hmap
+  injection hmap with hmap
+  cases l with
+  | nil => simp at hmap
+  | cons q l' =>
+    rw [List.map_cons] at hmap
+    injection hmap with hx hxs
+    subst hx; subst hxs
+    have hq := hl1 q (by simp)
+    obtain ⟨xgs, hg1, hg2, hg3⟩ := Proofs.Roundtrip.mergeGo_groups segs hv l' (ivOf q) [q]
+      (Proofs.Roundtrip.grp_single segs hv q hq) (fun y hy => hl1 y (by simp [hy]))
+    have hplen : lenOf (q :: l') = plen := by
+      have := plenU_nodes segs hv (q :: l') hl1
+      rw [hc.walk.plen_eq] at this
+      injection this with this
+      exact this.symm
+    obtain ⟨hps, hpspe, hpe⟩ := hc.walk.bounds
+    have hF : ∀ p, (q :: l').head? = some p → ps < p.2.seq.length := by
+      intro p hp
+      have hp' : p ∈ q :: l' := List.mem_of_head? hp
+      exact hc.first (p.1, p.2.id) (by unfold stepsOf; rw [List.head?_map, hp]; rfl) p.2
+        (findSeg_of_mem segs hv p.2 (hl1 p hp'))
+    have hL : ∀ p, (q :: l').getLast? = some p → plen - p.2.seq.length < pe := by
+      intro p hp
+      have hp' : p ∈ q :: l' := List.mem_of_getLast? hp
+      exact hc.last (p.1, p.2.id) (by unfold stepsOf; rw [List.getLast?_map, hp]; rfl) p.2
+        (findSeg_of_mem segs hv p.2 (hl1 p hp'))
+    rcases hcases with ⟨n, total, hout, -, -, hp, ho⟩ | ⟨n, total, hout, -, -, hp, ho⟩ | ⟨hp, ho⟩
+    · subst hp; subst ho
+      rw [← hg1] at hout
+      obtain ⟨g, rfl⟩ := single_group xgs _ hout
+      have hgeq : g = q :: l' := by simpa using hg3
+      subst hgeq
+      have hg := hg2 _ (List.mem_singleton.2 rfl)
+      have := Proofs.Roundtrip.bare_roundtrip segs hv n false _ hg plen ps pe ⟨hps, hc.nonempty, hpe⟩ hplen hF hL total
+      simp only [Bool.false_eq_true, if_false, Bool.not_false] at this
+      exact this
+    · subst hp; subst ho
+      rw [← hg1] at hout
+      obtain ⟨g, rfl⟩ := single_group xgs _ hout
+      have hgeq : g = q :: l' := by simpa using hg3
+      subst hgeq
+      have hg := hg2 _ (List.mem_singleton.2 rfl)
+      have := Proofs.Roundtrip.bare_roundtrip segs hv n true _ hg plen ps pe ⟨hps, hc.nonempty, hpe⟩ hplen hF hL total
+      simp only [if_true, Bool.not_true] at this
+      exact this
+    · subst hp; subst ho
+      have hne : xgs ≠ [] := by
+        intro he
+        rw [he] at hg3
+        simp at hg3
+      obtain ⟨st', hst', hpath, hsplit⟩ := Proofs.Roundtrip.fold_groups segs hv xgs hg2 true ps (ps + pe - ps)
+        ⟨[], none, -1, 0, false⟩
+      have hsplit' : st'.split = true := hsplit (Or.inr hne)
+      have hpath' : st'.path = stepsOf (q :: l') := by
+        rw [hpath, hg3]; rfl
+      have hemp : (((xgs.map (·.1)).map toItem)).isEmpty = false := by
+        cases xgs with
+        | nil => exact absurd rfl hne
+        | cons x l => rfl
+      have hpe' : ps + pe - ps = pe := by omega
+      simp only [itemsOf]
+      rw [← hg1]
+      unfold toUnstable
+      rw [hst']
+      simp only [hemp, hsplit', hpath', hpe', Bool.not_true, Bool.false_eq_true, if_false, if_true]
 
 /-- gaftools' own canonical stable form: what `to_stable` writes for a canonical walk record -/
 def CanonStable (segs : List RSeg) (p : SPath) (o : ConvOut) : Prop :=
@@ -35,7 +118,8 @@ def CanonStable (segs : List RSeg) (p : SPath) (o : ConvOut) : Prop :=
 theorem roundtrip_SUS (segs : List RSeg) (hv : ValidRGFA segs) (p : SPath) (o : ConvOut) (hc : CanonStable segs p o) :
     ∃ steps u, toUnstable (refOf segs) o.strandPlus (itemsOf p) o.plen o.ps o.pe = some (steps, u) ∧
       toStable (nodeTbl segs) (refNames segs) (ctgLen segs) u.strandPlus steps u.plen u.ps u.pe = some (p, o) := by
-  sorry
+  obtain ⟨steps, plen, ps, pe, hcu, hts⟩ := hc
+  exact ⟨steps, ⟨true, plen, ps, pe, o.flipCigar⟩, roundtrip_USU segs hv steps plen ps pe hcu p o hts, hts⟩
 
 /-- a CIGAR as `groupby(str.isdigit)` sees it: non-empty digit runs alternating with non-empty non-digit runs, starting
     with digits and ending with an operation -/
@@ -44,29 +128,182 @@ def wfCigarToks : List Str → Prop
   | n :: op :: rest => n ≠ [] ∧ n.all Char.isDigit = true ∧ op ≠ [] ∧ op.all (fun c => !c.isDigit) = true ∧ wfCigarToks rest
   | _ => False
 
+/-- the tokens of a well-formed CIGAR are its (length, operation) pairs, flattened -/
+theorem wf_pairs : ∀ toks : List Str, wfCigarToks toks →
+    Proofs.Roundtrip.WfP (Gaftools.Stat.cigarPairs toks) ∧
+      (Gaftools.Stat.cigarPairs toks).flatMap (fun p => [p.1, p.2]) = toks
+  | [], _ => ⟨fun p hp => by simp [Gaftools.Stat.cigarPairs] at hp, rfl⟩
+  | [_], h => by simp [wfCigarToks] at h
+  | n :: op :: rest, h => by
+    obtain ⟨h1, h2, h3, h4, h5⟩ := h
+    obtain ⟨ih1, ih2⟩ := wf_pairs rest h5
+    constructor
+    · intro p hp
+      simp only [Gaftools.Stat.cigarPairs, List.mem_cons] at hp
+      rcases hp with rfl | hp
+      · refine ⟨h1, ?_, h3, ?_⟩
+        · intro c hc; exact List.all_eq_true.1 h2 c hc
+        · intro c hc; simpa using List.all_eq_true.1 h4 c hc
+      · exact ih1 p hp
+    · simp only [Gaftools.Stat.cigarPairs, List.flatMap_cons, ih2]; rfl
+
 /-- reversing the CIGAR twice gives it back -/
 theorem reverseCigar_involutive (cg : Str) (h : wfCigarToks (Gaftools.Stat.groupDigits cg)) :
     reverseCigarStr (reverseCigarStr cg) = cg := by
-  sorry
+  obtain ⟨hw, hf⟩ := wf_pairs _ h
+  have hcg : (Gaftools.Stat.cigarPairs (Gaftools.Stat.groupDigits cg)).flatMap (fun p => p.1 ++ p.2) = cg := by
+    rw [← Proofs.Roundtrip.flatMap_pair_flatten, hf, Proofs.Roundtrip.groupDigits_flatten]
+  have hw' : Proofs.Roundtrip.WfP (Gaftools.Stat.cigarPairs (Gaftools.Stat.groupDigits cg)).reverse :=
+    fun p hp => hw p (List.mem_reverse.1 hp)
+  have e1 : reverseCigarStr cg
+      = (Gaftools.Stat.cigarPairs (Gaftools.Stat.groupDigits cg)).reverse.flatMap (fun p => p.1 ++ p.2) := rfl
+  rw [e1]
+  unfold reverseCigarStr
+  rw [Proofs.Roundtrip.reverse_pairs _ hw', List.reverse_reverse]
+  exact hcg
+
+/-! Why `emit_untouched` needs the hypothesis that the record's CIGAR holds no tab — without it the statement is false: `Rec.cigar` is a free field of the record, not tied to `r.tags`, and nothing excludes
+    a tab in it; when the CIGAR is flipped the value written for `cg:Z:` is `reverseCigarStr r.cigar`, which then contains
+    the tab and splits into two fields.  Counterexample below; `emit_untouched_fixed` is the statement with the missing
+    hypothesis `¬ r.cigar.contains '\t'` (proved). -/
+def emitCounterRec : Rec := { (default : Rec) with cigar := "1\tM".toList, tags := [(cgKey, "1M".toList)] }
+example : (∀ t ∈ emitCounterRec.tags, ¬ t.1.contains '\t' ∧ ¬ t.2.contains '\t') ∧ ¬ emitCounterRec.qname.contains '\t' ∧
+    ¬ ([] : Str).contains '\t' ∧
+    ((splitTab (emitConverted emitCounterRec [] ⟨true, 0, 0, 0, true⟩)).drop 12).length ≠ emitCounterRec.tags.length := by decide
+
+theorem dictSet_has (d : List (Str × Str)) (k v : Str) (h : dictHas d k = true) :
+    dictSet d k v = d.map (fun e => if e.1 == k then (k, v) else e) := by
+  unfold dictHas at h
+  unfold dictSet
+  rw [if_pos h]
+
+theorem emit_core (r : Rec) (path : Str) (o : ConvOut) (tags' : List (Str × Str))
+    (hq : '\t' ∉ r.qname) (hp : '\t' ∉ path) (hlen : tags'.length = r.tags.length)
+    (hnt : ∀ e ∈ tags', '\t' ∉ e.1 ∧ '\t' ∉ e.2)
+    (hpt : ∀ i (hi : i < r.tags.length) (hi' : i < tags'.length),
+      tags'[i].1 = r.tags[i].1 ∧ (r.tags[i].1 ≠ cgKey → tags'[i] = r.tags[i])) :
+    let fs := splitTab (joinTab ([r.qname, dec r.qlen, dec r.qs, dec r.qe, (if o.strandPlus then ['+'] else ['-']), path,
+            decI o.plen, decI o.ps, decI o.pe, dec r.nmatch, dec r.blen, dec r.mapq] ++ tags'.map (fun kv => kv.1 ++ kv.2)))
+    fs.take 4 = [r.qname, dec r.qlen, dec r.qs, dec r.qe] ∧
+    (fs.drop 9).take 3 = [dec r.nmatch, dec r.blen, dec r.mapq] ∧
+    (fs.drop 12).length = r.tags.length ∧
+    ∀ i (hi : i < r.tags.length), ∃ f, (fs.drop 12)[i]? = some f ∧ f.take (r.tags[i]).1.length = (r.tags[i]).1 ∧
+      ((r.tags[i]).1 ≠ cgKey → f = (r.tags[i]).1 ++ (r.tags[i]).2) := by
+  have hdec : ∀ n, '\t' ∉ dec n := by
+    intro n hm
+    have := Nat.isDigit_of_mem_toDigits (b := 10) (by decide) (by decide) hm
+    exact absurd this (by decide)
+  have hdecI : ∀ i, '\t' ∉ decI i := by
+    intro i hm
+    unfold decI at hm
+    split at hm
+    · rcases List.mem_cons.1 hm with h | h
+      · exact absurd h (by decide)
+      · exact hdec _ h
+    · exact hdec _ hm
+  have hsplit : splitTab (joinTab ([r.qname, dec r.qlen, dec r.qs, dec r.qe, (if o.strandPlus then ['+'] else ['-']), path,
+            decI o.plen, decI o.ps, decI o.pe, dec r.nmatch, dec r.blen, dec r.mapq] ++ tags'.map (fun kv => kv.1 ++ kv.2)))
+      = [r.qname, dec r.qlen, dec r.qs, dec r.qe, (if o.strandPlus then ['+'] else ['-']), path,
+            decI o.plen, decI o.ps, decI o.pe, dec r.nmatch, dec r.blen, dec r.mapq] ++ tags'.map (fun kv => kv.1 ++ kv.2) := by
+    unfold splitTab joinTab
+    apply List.splitOn_intercalate '\t' _ (by simp)
+    intro l hl
+    rw [List.mem_append] at hl
+    rcases hl with hl | hl
+    · simp only [List.mem_cons, List.not_mem_nil, or_false] at hl
+      rcases hl with rfl|rfl|rfl|rfl|rfl|rfl|rfl|rfl|rfl|rfl|rfl|rfl
+      · exact hq
+      · exact hdec _
+      · exact hdec _
+      · exact hdec _
+      · split <;> decide
+      · exact hp
+      · exact hdecI _
+      · exact hdecI _
+      · exact hdecI _
+      · exact hdec _
+      · exact hdec _
+      · exact hdec _
+    · obtain ⟨e, he, rfl⟩ := List.mem_map.1 hl
+      intro hm
+      rcases List.mem_append.1 hm with h | h
+      · exact (hnt e he).1 h
+      · exact (hnt e he).2 h
+  intro fs
+  have hfs : fs = _ := hsplit
+  rw [hfs]
+  refine ⟨rfl, rfl, ?_, ?_⟩
+  · simp [hlen]
+  · intro i hi
+    have hi' : i < tags'.length := by omega
+    obtain ⟨h1, h2⟩ := hpt i hi hi'
+    refine ⟨tags'[i].1 ++ tags'[i].2, ?_, ?_, ?_⟩
+    · simp [hi']
+    · rw [← h1]; simp
+    · intro hk; rw [h2 hk]
 
 /-- the printed converted record leaves read name, read length/start/end, match count, block length and mapping quality
     unchanged, and every optional field other than the CIGAR, in the original order -/
 theorem emit_untouched (r : Rec) (path : Str) (o : ConvOut) :
     let fs := splitTab (emitConverted r path o)
     (∀ t ∈ r.tags, ¬ t.1.contains '\t' ∧ ¬ t.2.contains '\t') → ¬ r.qname.contains '\t' → ¬ path.contains '\t' →
+    ¬ r.cigar.contains '\t' →
     fs.take 4 = [r.qname, dec r.qlen, dec r.qs, dec r.qe] ∧
     (fs.drop 9).take 3 = [dec r.nmatch, dec r.blen, dec r.mapq] ∧
     (fs.drop 12).length = r.tags.length ∧
     ∀ i (hi : i < r.tags.length), ∃ f, (fs.drop 12)[i]? = some f ∧ f.take (r.tags[i]).1.length = (r.tags[i]).1 ∧
       ((r.tags[i]).1 ≠ cgKey → f = (r.tags[i]).1 ++ (r.tags[i]).2) := by
-  sorry
+  intro fs htags hq hp hcg
+  have htags' : ∀ t ∈ r.tags, '\t' ∉ t.1 ∧ '\t' ∉ t.2 := by
+    intro t ht
+    have := htags t ht
+    simpa using this
+  have hq' : '\t' ∉ r.qname := by simpa using hq
+  have hp' : '\t' ∉ path := by simpa using hp
+  have hcg' : '\t' ∉ r.cigar := by simpa using hcg
+  by_cases hc : (o.flipCigar && dictHas r.tags cgKey) = true
+  · have hhas : dictHas r.tags cgKey = true := by
+      simp only [Bool.and_eq_true] at hc; exact hc.2
+    have hfs : fs = splitTab (joinTab ([r.qname, dec r.qlen, dec r.qs, dec r.qe, (if o.strandPlus then ['+'] else ['-']), path,
+            decI o.plen, decI o.ps, decI o.pe, dec r.nmatch, dec r.blen, dec r.mapq] ++
+            (r.tags.map (fun e => if e.1 == cgKey then (cgKey, reverseCigarStr r.cigar) else e)).map (fun kv => kv.1 ++ kv.2))) := by
+      show splitTab (emitConverted r path o) = _
+      unfold emitConverted
+      simp only []
+      rw [if_pos hc, dictSet_has _ _ _ hhas]
+    rw [hfs]
+    apply emit_core r path o _ hq' hp' (by simp)
+    · intro e he
+      obtain ⟨t, ht, rfl⟩ := List.mem_map.1 he
+      split
+      · refine ⟨(by decide : '\t' ∉ cgKey), ?_⟩
+        intro hm
+        exact hcg' (Proofs.Roundtrip.mem_reverseCigarStr _ _ hm)
+      · exact htags' t ht
+    · intro i hi hi'
+      simp only [List.getElem_map]
+      split
+      · rename_i hk
+        have hk' : r.tags[i].1 = cgKey := by simpa using hk
+        exact ⟨hk'.symm, fun hne => absurd hk' hne⟩
+      · exact ⟨rfl, fun _ => rfl⟩
+  · have hfs : fs = splitTab (joinTab ([r.qname, dec r.qlen, dec r.qs, dec r.qe, (if o.strandPlus then ['+'] else ['-']), path,
+            decI o.plen, decI o.ps, decI o.pe, dec r.nmatch, dec r.blen, dec r.mapq] ++
+            r.tags.map (fun kv => kv.1 ++ kv.2))) := by
+      show splitTab (emitConverted r path o) = _
+      unfold emitConverted
+      simp only []
+      rw [if_neg hc]
+    rw [hfs]
+    exact emit_core r path o _ hq' hp' rfl htags' (fun i hi hi' => ⟨rfl, fun _ => rfl⟩)
 
 /-- whole-file conversion emits exactly one record per input record, the i-th from the i-th -/
 def convertFile (conv : Str → Option Str) (lines : List Str) : Option (List Str) := lines.mapM conv
 
 theorem convertFile_length (conv : Str → Option Str) (lines out : List Str) (h : convertFile conv lines = some out) :
     out.length = lines.length ∧ ∀ i (hi : i < lines.length), out[i]? = conv lines[i] := by
-  sorry
+  obtain ⟨hl, hp⟩ := (Proofs.Conv.mapM_eq_some_iff conv lines out).1 h
+  exact ⟨hl, fun i hi => (hp i hi).symm⟩
 
 /-! non-vacuity (graph of C01: chr1 = a[0,3) b[3,5) c[5,9); h at hap[10,12)) -/
 example : toUnstable (refOf exSegs) false (itemsOf (.bare "chr1")) 9 4 8 = some ([(false, "c"), (false, "b")], ⟨true, 6, 1, 5, true⟩) := by decide
